@@ -190,6 +190,15 @@ func Execute(sc Scenario, pubs []*chain.Pub) (log []gate.Event, key, detail stri
 	if err != nil || r.sub == nil {
 		return s.Log, "infra", fmt.Sprint(err)
 	}
+	// the goroutines NewSubscriber started (announcement watcher, event distributor) may not have been scheduled yet on a busy
+	// machine: the run begins once both are parked at their first hooks
+	for deadline := time.Now().Add(3 * s.Watchdog); len(s.ParkedIDs()) < 2; {
+		if time.Now().After(deadline) {
+			return s.Log, "infra", "the subscriber's watcher / distributor did not reach their first hooks"
+		}
+		time.Sleep(50 * time.Microsecond)
+		s.Settle()
+	}
 	// environment actions, in a seeded random interleaving with goroutine releases
 	var todo []envAction
 	nextAd := make([]int, sc.Pubs)
